@@ -204,7 +204,9 @@ PROPS["C04"] = {
     "rule": ("bubble: C03's generator plus failing subsets (10% per node), fail-fast on/off, optional external cancel at a generated virtual time, mostly-zero latencies, 5% of cases with up to 4000 nodes; Walk must return (a hang is a synctest deadlock report), "
              "completions only for selected nodes, and in keep-going mode without cancel every selected node is succeeded, failed or downstream of a failure. race: keep-going failure patterns on the real scheduler under -race (up to 3000 nodes), the returned completion map is iterated immediately like RunBuild does; race-cancel: fail-fast and external cancel under -race with the walker alone (tasks behind a plain semaphore instead of grog's pool, whose shutdown closes a channel under concurrent sends on purpose). stress: all patterns incl. fail-fast and cancel on the real scheduler without the race detector. "
              "restore-faults: outputs (flat directory, generated trees, file outputs) cached through the real registry; for EVERY cache blob x {deleted, truncated, emptied}, up to 40 pairs of deletions and 'all deleted', LoadOutputs under a 30 s watchdog must return. "
-             "Non-trivial = bubble/race: a selected failure with a selected dependant, or a cancel, or >=1000 zero-latency nodes; restore-faults: >=2 blobs; distinct by full case."),
+             "timeouts: histories through the real binary (<=6 targets, 70% declare an 8 s timeout) whose steps make targets sleep 40 s, fail or kill their own shell, in keep-going and fail-fast builds of everything or of one label; every build must exit on its own within 120 s, "
+             "non-zero exactly when a selected target could not be resolved, and the follow-up build after the switches are cleared must run what was not completed. "
+             "Non-trivial = bubble/race: a selected failure with a selected dependant, or a cancel, or >=1000 zero-latency nodes; restore-faults: >=2 blobs; timeouts: a target that exceeds its timeout or kills its shell; distinct by full case."),
     "assumptions": [
         "goroutines left blocked after Walk has returned are not violations (the process exits)",
         "the only wall-clock oracles are 30 s (real-scheduler walk) and 30 s (restore) watchdogs on operations that take milliseconds",
@@ -227,6 +229,9 @@ PROPS["C04"] = {
         {"name": "restore-faults", "pkg": "c04", "test": "TestRestoreFaults",
          "quick": {"shards": 4, "checks": 60, "cap": 900},
          "thorough": {"shards": 8, "checks": 1500, "cap": 7200}},
+        {"name": "timeouts", "pkg": "c04", "test": "TestTimeouts", "binary": True,
+         "quick": {"shards": 16, "checks": 32, "cap": 1200, "shrinktime": "90s"},
+         "thorough": {"shards": 32, "checks": 800, "cap": 14400, "shrinktime": "300s"}},
     ],
 }
 
@@ -338,11 +343,13 @@ PROPS["C07"] = {
     "level": "fault_enumeration",
     "rule": ("backend-ops: rapid sequences of 1-8 operations on the real FileSystemCache: complete writes, writes whose reader fails at chunk k, pairs of CONCURRENT writes of one key whose readers are gated chunk by chunk by a generated interleaving (one of them optionally failing), deletes; after every operation each key must be absent or hold exactly one complete content of a completed write (never a prefix, never a mixture). "
              "cas-ops: sequences of Cas.Write over a fault-injecting in-memory backend, including two simultaneous writes of one digest where the first backend write is held until the second Write has returned and either may fail; a Write that returned nil must leave the blob retrievable with its exact content. "
+             "wrapper-faults: 1-6 write-throughs (RemoteWrapper.Set or Cas.Write over it; real file cache + a streaming remote twin that commits an object only after a clean end of stream) with one fault each: source fails after n chunks, "
+             "local half fails before reading (its directory is a regular file) or at the final rename (a directory sits at the blob path), remote stops reading after k bytes or refuses the commit; after every write no store exposes a digest with other content than its own and a write that returned nil is present in both. "
              "op-faults (fault enumeration): the executor assembled in-process exactly as RunBuild does, over a backend decorator that numbers every Get/Set/Exists/Delete; for a cold build and for a partial rebuild on a warm cache, for every 5th (quick) / EVERY (thorough) backend operation n and each of {error returned, process killed before the operation, process killed after it} the build is repeated in a child process; afterwards the cache directory must pass the audit and the next fault-free build must succeed with byte-exact outputs. "
              "crash-in-set: a child process dies from SIGKILL inside Set after k chunks (k = 0..12), over an absent or an existing key; afterwards the key holds the old complete content, the new complete content, or nothing. "
              "kill-histories: real-binary histories (targets with 0.2-3 MiB outputs, dir outputs, blobs shared between targets) where builds are killed with SIGKILL (whole process group) after 0-1500 ms or run with an unwritable blob store; after EVERY invocation the cache directory is audited "
              "(each cas/<d> re-hashes to d; each target/<k> decodes, has change_hash k and references only present blobs incl. every file node of every tree) and every later fault-free build must exit 0 with byte-exact outputs. "
-             "Non-trivial = backend-ops: a failed or concurrent write occurred; crash and op-faults: always; kill-histories: the kill landed while a target was running or after one finished, or a storage fault was injected; distinct by full case."),
+             "Non-trivial = backend-ops: a failed or concurrent write occurred; wrapper-faults: a fault was delivered; crash and op-faults: always; kill-histories: the kill landed while a target was running or after one finished, or a storage fault was injected; distinct by full case."),
     "assumptions": [
         "leftover tmp-* files are not visible under any key and are not violations",
         "kill times are sampled (no yield points inside the binary); the in-process parts enumerate chunk positions 0..12 of the copy loop",
@@ -355,6 +362,8 @@ PROPS["C07"] = {
          "quick": {"shards": 8, "checks": 4000, "cap": 900}, "thorough": {"shards": 16, "checks": 100000, "cap": 7200}},
         {"name": "cas-ops", "pkg": "c07", "test": "TestCasOps",
          "quick": {"shards": 4, "checks": 4000, "cap": 600}, "thorough": {"shards": 8, "checks": 200000, "cap": 3600}},
+        {"name": "wrapper-faults", "pkg": "c07", "test": "TestWrapperFaults",
+         "quick": {"shards": 4, "checks": 3000, "cap": 600}, "thorough": {"shards": 8, "checks": 150000, "cap": 3600}},
         {"name": "op-faults", "pkg": "c07", "test": "TestOpFaults",
          "quick": {"shards": 12, "checks": 12, "cap": 1500, "shrinktime": "60s"}, "thorough": {"shards": 32, "checks": 96, "cap": 14400, "shrinktime": "120s"}},
         {"name": "crash-in-set", "pkg": "c07", "test": "TestCrashInSet",
